@@ -36,7 +36,7 @@ impl Resp {
 }
 
 pub fn server_binary() -> PathBuf {
-    PathBuf::from(std::env::var("VERIF_SERVER_BIN").unwrap_or_else(|_| format!("{VERIF_ROOT}/target/server/debug/agdb_server")))
+    PathBuf::from(std::env::var("VERIF_SERVER_BIN").unwrap_or_else(|_| format!("{}/target/server/debug/agdb_server", verif_root())))
 }
 
 fn free_port() -> u16 {
